@@ -118,11 +118,12 @@ type CaseOut struct {
 
 type WireOut struct {
 	On      string   `json:"on"`     // interface the capture ran on
-	Frames  int      `json:"frames"` // ARP requests seen
+	Frames  int      `json:"frames"` // probes (ARP requests / ICMP echo requests for the target) seen
 	SrcMACs []string `json:"src_macs"`
 	ArpSHA  []string `json:"arp_sha"`
 	ArpSPA  []string `json:"arp_spa"`
-	Others  []string `json:"others"` // interfaces (other than the chosen one and its peer) that saw ARP requests
+	Others  []string `json:"others"` // interfaces the probes left through
+	Garbage []string `json:"garbage,omitempty"` // what was read from tun devices and is no IPv4 packet
 }
 
 func hexp(b []byte) *string {
@@ -221,6 +222,7 @@ func runChild() {
 			cfg.CmdFails = append(cfg.CmdFails, err.Error())
 		}
 	}
+	attachTuns() // gives the tun devices carrier; done before the configuration is read back
 	var rows []CaseOut
 	for attempt := 0; attempt < 4; attempt++ {
 		ifs, rts, err := readBack()
@@ -229,7 +231,7 @@ func runChild() {
 			os.Exit(3)
 		}
 		cfg.Ifaces, cfg.Routes = ifs, rts
-		cacheFile := writeArpCache(rts)
+		cacheFile := writeArpCache(rts, spec.Cases)
 		rows = rows[:0]
 		for n, ci := range spec.Cases {
 			rows = append(rows, runCase(spec.ID, n, ci, cacheFile, ifs))
@@ -251,7 +253,7 @@ func runChild() {
 
 // synthetic ARP cache: every gateway g of the route table has the MAC 02:00:g, so the gatewayMAC the
 // real getGatewayMAC finds tells which gateway GetDefaultGatewayIP returned
-func writeArpCache(rts []RouteOut) string {
+func writeArpCache(rts []RouteOut, cases []CaseIn) string {
 	f, err := os.CreateTemp("", "c17-arp-*.jsonl")
 	if err != nil {
 		return os.DevNull
@@ -265,6 +267,15 @@ func writeArpCache(rts []RouteOut) string {
 		}
 		seen[r.Gw] = true
 		fmt.Fprintf(f, "{\"ip\":\"%s\",\"mac\":\"02:00:%02x:%02x:%02x:%02x\"}\n", net.IP(g).String(), g[0], g[1], g[2], g[3])
+	}
+	// the targets of the icmp runs (entry 3) need a destination MAC too
+	for _, c := range cases {
+		g := net.ParseIP(c.Target).To4()
+		if c.Entry != 3 || g == nil || seen[hex.EncodeToString(g)] {
+			continue
+		}
+		seen[hex.EncodeToString(g)] = true
+		fmt.Fprintf(f, "{\"ip\":\"%s\",\"mac\":\"02:00:%02x:%02x:%02x:%02x\"}\n", g.String(), g[0], g[1], g[2], g[3])
 	}
 	return f.Name()
 }
@@ -310,8 +321,8 @@ func runCase(id, n int, ci CaseIn, cacheFile string, ifs []IfaceOut) CaseOut {
 			argv = append(argv, "--file", os.DevNull)
 		}
 		res = command.VerifC17IPScan(argv)
-	case 2:
-		return runWire(o, argv, ifs)
+	case 2, 3:
+		return runWire(o, argv, ifs, cacheFile)
 	}
 	o.Err = res.ErrClass
 	if res.Err != nil {
@@ -402,6 +413,7 @@ func main() {
 	jobs := flag.Int("jobs", 4, "children run in parallel")
 	child := flag.Bool("child", false, "internal: run inside the fresh namespace")
 	probe := flag.Bool("probe", false, "internal: namespace probe")
+	runcmd := flag.Bool("runcmd", false, "internal: one sx command line run in its own process")
 	specFile := flag.String("spec", "", "run exactly the spec(s) in this JSON file (replay)")
 	wire := flag.Int("wire", 0, "per configuration, number of arp command runs observed on the wire (entry 2)")
 	corpus := flag.String("corpus", "", "directory of spec files run before the generated configurations")
@@ -413,6 +425,10 @@ func main() {
 	}
 	if *child {
 		runChild()
+		return
+	}
+	if *runcmd {
+		runCmdMode()
 		return
 	}
 	o := hlib.NewOut(*out)
@@ -477,16 +493,21 @@ func main() {
 		}(i)
 	}
 	wg.Wait()
-	rc := 0
+	rc, nfail := 0, 0
 	for i := range specs {
 		if errs[i] != nil {
+			// one configuration lost (the child died): recorded, the check decides what it means
 			fmt.Fprintln(os.Stderr, errs[i])
-			rc = 1
+			o.Put(map[string]interface{}{"kind": "childfail", "id": specs[i].ID, "why": tail(errs[i].Error(), 1500)})
+			nfail++
 			continue
 		}
 		for _, r := range results[i] {
 			o.Put(r)
 		}
+	}
+	if nfail*4 > len(specs) {
+		rc = 1 // more than a quarter of the configurations lost: the run is not usable
 	}
 	if rc != 0 {
 		o.Close()
